@@ -35,6 +35,27 @@ type Config struct {
 	SrcInBuf     int `json:"src_in_buf"`
 	SrcOutBuf    int `json:"src_out_buf"`
 	RecvPeriod   int `json:"recv_period"` // the requester takes one response every RecvPeriod cycles
+	// Conv: the memory is one element of an interleaved multi-controller address space
+	// (mem.InterleavingConverter); request addresses in Case.Reqs are INTERNAL addresses and are
+	// sent to the component under the external address that maps to them
+	Conv *ConvCfg `json:"conv,omitempty"`
+}
+
+// ConvCfg configures the address converter.
+type ConvCfg struct {
+	Log2Size int `json:"log2_size"` // interleaving chunk 2^6..2^12
+	Elems    int `json:"elems"`
+	Index    int `json:"index"`
+	Rounds   int `json:"offset_rounds"` // Offset = Rounds * chunk * Elems
+}
+
+func (c *ConvCfg) external(internal uint64) uint64 {
+	if c == nil {
+		return internal
+	}
+	size := uint64(1) << c.Log2Size
+	off := uint64(c.Rounds) * size * uint64(c.Elems)
+	return off + (internal/size*uint64(c.Elems)+uint64(c.Index))*size + internal%size
 }
 
 // Req is one scripted request.
@@ -80,6 +101,12 @@ func genCase(t *rapid.T) Case {
 		if c.Cfg.RowLog2 == 0 {
 			c.Cfg.RowMissDelay = rapid.SampledFrom([]int{0, 20}).Draw(t, "rowmiss")
 		}
+	}
+	if rapid.IntRange(0, 3).Draw(t, "conv") == 0 {
+		cv := &ConvCfg{Log2Size: rapid.IntRange(6, 12).Draw(t, "convsize"), Elems: rapid.IntRange(1, 4).Draw(t, "convelems"),
+			Rounds: rapid.IntRange(0, 3).Draw(t, "convrounds")}
+		cv.Index = rapid.IntRange(0, cv.Elems-1).Draw(t, "convindex")
+		c.Cfg.Conv = cv
 	}
 	c.Sources = rapid.IntRange(1, 2).Draw(t, "sources")
 	inter := uint64(1) << c.Cfg.Log2Inter
@@ -179,6 +206,11 @@ func runOnce(c Case) (res stats.Result) {
 		WithRowBufferSizeLog2(uint64(c.Cfg.RowLog2)).
 		WithRowMissDelay(c.Cfg.RowMissDelay).
 		WithNewStorage(memSize)
+	if cv := c.Cfg.Conv; cv != nil {
+		size := uint64(1) << cv.Log2Size
+		b = b.WithAddressConverter(mem.InterleavingConverter{InterleavingSize: size, TotalNumOfElements: cv.Elems,
+			CurrentElementIndex: cv.Index, Offset: uint64(cv.Rounds) * size * uint64(cv.Elems)})
+	}
 	m := b.Build("DRAM")
 	top := m.GetPortByName("Top")
 
@@ -244,14 +276,14 @@ func runOnce(c Case) (res stats.Result) {
 					var msg sim.Msg
 					if r.Write {
 						wb := mem.WriteReqBuilder{}.WithSrc(src.port.AsRemote()).WithDst(top.AsRemote()).
-							WithAddress(r.Addr).WithData(append([]byte(nil), r.Data...))
+							WithAddress(c.Cfg.Conv.external(r.Addr)).WithData(append([]byte(nil), r.Data...))
 						if r.Mask != nil {
 							wb = wb.WithDirtyMask(append([]bool(nil), r.Mask...))
 						}
 						msg = wb.Build()
 					} else {
 						msg = mem.ReadReqBuilder{}.WithSrc(src.port.AsRemote()).WithDst(top.AsRemote()).
-							WithAddress(r.Addr).WithByteSize(uint64(r.Size)).Build()
+							WithAddress(c.Cfg.Conv.external(r.Addr)).WithByteSize(uint64(r.Size)).Build()
 					}
 					ids[i] = msg.Meta().ID
 					idx[ids[i]] = i
@@ -336,6 +368,9 @@ func runOnce(c Case) (res stats.Result) {
 	}
 	if c.Cfg.Width > 1 {
 		labels = append(labels, "wide-pipeline")
+	}
+	if c.Cfg.Conv != nil {
+		labels = append(labels, "address-converter")
 	}
 	res.Labels = labels
 	res.NonTrivial = overlapRW && len(c.Reqs) >= 3
